@@ -696,3 +696,327 @@ Proof.
   simpl. unfold lex_line. rewrite map_app.
   apply (lex_tlayout_gen s ts H p ps E). lia.
 Qed.
+
+(* ------------------------------------------------------------------ *)
+(** * Class of every token produced from a string (converse direction) *)
+
+(* Every token produced by lexing a string has a text in its class language. *)
+
+Definition tok_class (k : tokty) (w : str) : Prop :=
+  match k with
+  | SYMBOL => wf_symbol w = true
+  | ROLE => exists b, w = 58%N :: b /\ forallb is_name b = true
+  | STRING => m_string w = Some (w, []) /\ no_lfcr w = true
+  | ALIGNMENT => m_align w = Some (w, [])
+  | COMMENT => exists a, w = 35%N :: a /\ no_lfcr a = true
+  | _ => True
+  end.
+
+(* ------------------------------------------------------------------ *)
+(* no_lfcr *)
+
+Lemma no_lfcr_app_inv : forall a b, no_lfcr (a ++ b) = true -> no_lfcr a = true /\ no_lfcr b = true.
+Proof. intros a b H. unfold no_lfcr in *. exact (proj1 (forallb_app_iff _ a b) H). Qed.
+
+Lemma no_lfcr_cons : forall c s, no_lfcr (c :: s) = true ->
+  eqc c 10 = false /\ eqc c 13 = false /\ no_lfcr s = true.
+Proof.
+  intros c s H.
+  change (negb (eqc c 10) && negb (eqc c 13) && no_lfcr s = true) in H.
+  apply andb_true_iff in H. destruct H as [H1 H2].
+  apply andb_true_iff in H1. destruct H1 as [A B].
+  apply negb_true_iff in A. apply negb_true_iff in B.
+  repeat split; assumption.
+Qed.
+
+(* ------------------------------------------------------------------ *)
+(* ALIGNMENT: the scanner accepts its own output entirely *)
+
+Lemma m_more_nil : forall f, m_more f [] = ([], []).
+Proof. intros [|f]; reflexivity. Qed.
+
+Lemma m_more_S : forall f c r, m_more (S f) (c :: r) =
+  if eqc c 44 then
+    match span is_digit r with
+    | ([], _) => ([], c :: r)
+    | (d, r') => let '(a, b) := m_more f r' in (c :: d ++ a, b)
+    end
+  else ([], c :: r).
+Proof. reflexivity. Qed.
+
+Lemma m_more_head : forall f s a b, m_more f s = (a, b) -> head_fails is_digit a.
+Proof.
+  intros [|f] s a b H; simpl in H.
+  - injection H as H1 H2. subst a. exact I.
+  - destruct s as [|c r]; [injection H as H1 H2; subst a; exact I|].
+    destruct (eqc c 44) eqn:C; [|injection H as H1 H2; subst a; exact I].
+    destruct (span is_digit r) as [d r'] eqn:Sp.
+    destruct d as [|d0 d]; [injection H as H1 H2; subst a; exact I|].
+    destruct (m_more f r') as [a0 b0] eqn:M. injection H as H1 H2. subst a.
+    apply eqc_true in C. subst c. reflexivity.
+Qed.
+
+Lemma m_more_self : forall f s a b, m_more f s = (a, b) -> m_more f a = (a, []).
+Proof.
+  induction f as [|f IH]; intros s a b H.
+  - simpl in H. injection H as H1 H2. subst a. reflexivity.
+  - simpl in H.
+    destruct s as [|c r]; [injection H as H1 H2; subst a; reflexivity|].
+    destruct (eqc c 44) eqn:C; [|injection H as H1 H2; subst a; reflexivity].
+    destruct (span is_digit r) as [d r'] eqn:Sp.
+    destruct d as [|d0 d]; [injection H as H1 H2; subst a; reflexivity|].
+    destruct (m_more f r') as [a0 b0] eqn:M. injection H as H1 H2. subst a.
+    destruct (span_spec _ _ _ _ Sp) as [E1 [E2 E3]].
+    assert (Sp' : span is_digit (d0 :: d ++ a0) = (d0 :: d, a0)).
+    { exact (span_exact is_digit (d0 :: d) a0 E2 (m_more_head _ _ _ _ M)). }
+    rewrite m_more_S, C, Sp', (IH _ _ _ M). reflexivity.
+Qed.
+
+Lemma m_more_refuel : forall f a, m_more f a = (a, []) ->
+  forall f', length a <= f' -> m_more f' a = (a, []).
+Proof.
+  induction f as [|f IH]; intros a H f' L.
+  - simpl in H. injection H as H1 H2. subst a. apply m_more_nil.
+  - simpl in H. destruct a as [|c r]; [apply m_more_nil|].
+    destruct (eqc c 44) eqn:C; [|discriminate H].
+    destruct (span is_digit r) as [d r'] eqn:Sp.
+    destruct d as [|d0 d]; [discriminate H|].
+    destruct (m_more f r') as [a0 b0] eqn:M. injection H as H1 H2. subst b0.
+    destruct (span_spec _ _ _ _ Sp) as [E1 [E2 E3]].
+    rewrite E1 in H1. apply (app_inv_head (d0 :: d)) in H1. subst a0.
+    assert (Lr : length r' <= length r) by (rewrite E1, app_length; lia).
+    destruct f' as [|f']; [simpl in L; lia|].
+    rewrite m_more_S, C, Sp.
+    rewrite (IH r' M f'); [|simpl in L; lia].
+    rewrite E1. reflexivity.
+Qed.
+
+Lemma m_digits_list_self : forall s a b, m_digits_list s = Some (a, b) ->
+  m_digits_list a = Some (a, []).
+Proof.
+  intros s a b H. unfold m_digits_list in H.
+  destruct (span is_digit s) as [d r] eqn:Sp. destruct d as [|d0 d]; [discriminate|].
+  destruct (m_more (length r) r) as [a0 b0] eqn:M. injection H as H1 H2. subst a.
+  destruct (span_spec _ _ _ _ Sp) as [E1 [E2 E3]].
+  assert (Sp' : span is_digit (d0 :: d ++ a0) = (d0 :: d, a0)).
+  { exact (span_exact is_digit (d0 :: d) a0 E2 (m_more_head _ _ _ _ M)). }
+  unfold m_digits_list. rewrite Sp'.
+  rewrite (m_more_refuel _ _ (m_more_self _ _ _ _ M) (length a0) (le_n _)). reflexivity.
+Qed.
+
+Lemma m_digits_list_head : forall s a b, m_digits_list s = Some (a, b) ->
+  exists x a', a = x :: a' /\ s = x :: a' ++ b.
+Proof.
+  intros s a b H. destruct (m_digits_list_spec _ _ _ H) as [E [_ NE]].
+  destruct a as [|x a']; [contradiction NE; reflexivity|].
+  exists x, a'. split; [reflexivity | exact E].
+Qed.
+
+Lemma m_align_self : forall s a b, m_align s = Some (a, b) -> m_align a = Some (a, []).
+Proof.
+  intros s a b H. unfold m_align in H.
+  destruct s as [|t r]; [discriminate|].
+  destruct (eqc t 126) eqn:T; [|discriminate].
+  destruct r as [|c r1].
+  { simpl in H. discriminate. }
+  destruct (is_ascii_alpha c) eqn:Al.
+  - assert (NoPre : m_digits_list (c :: r1) = None)
+      by (apply m_digits_list_nondigit; apply alpha_not_digit; exact Al).
+    rewrite NoPre in H.
+    destruct r1 as [|d r2].
+    { simpl in H. discriminate. }
+    destruct (eqc d 46) eqn:Dd.
+    + assert (NoD : m_digits_list (d :: r2) = None).
+      { apply m_digits_list_nondigit. apply eqc_true in Dd. subst d. reflexivity. }
+      rewrite NoD in H.
+      destruct (m_digits_list r2) as [[a0 b0]|] eqn:D2; [|discriminate].
+      injection H as H1 H2. subst a b0.
+      pose proof (m_digits_list_self _ _ _ D2) as D2'.
+      unfold m_align. rewrite T, Al, Dd, D2'. reflexivity.
+    + destruct (m_digits_list (d :: r2)) as [[a0 b0]|] eqn:D1; [|discriminate].
+      injection H as H1 H2. subst a b0.
+      pose proof (m_digits_list_self _ _ _ D1) as D1'.
+      destruct (m_digits_list_head _ _ _ D1) as [x [a' [Ea Es]]].
+      injection Es as Ex Er. subst a0 x.
+      unfold m_align. rewrite T, Al, Dd, D1'. reflexivity.
+  - destruct (m_digits_list (c :: r1)) as [[a0 b0]|] eqn:D; [|discriminate].
+    injection H as H1 H2. subst a b0.
+    pose proof (m_digits_list_self _ _ _ D) as D'.
+    destruct (m_digits_list_head _ _ _ D) as [x [a' [Ea Es]]].
+    injection Es as Ex Er. subst a0 x.
+    unfold m_align. rewrite T, Al, D'. reflexivity.
+Qed.
+
+(* ------------------------------------------------------------------ *)
+(* COMMENT *)
+
+Lemma m_comment_class : forall s a b, no_lfcr s = true -> m_comment s = Some (a, b) ->
+  (exists a', a = 35%N :: a' /\ no_lfcr a' = true) /\ s = a ++ b /\ a <> [].
+Proof.
+  intros s a b N H. unfold m_comment in H. destruct s as [|c s']; [discriminate|].
+  destruct (eqc c 35) eqn:C; [|discriminate]. apply eqc_true in C. subst c.
+  destruct (span (fun c => negb (eqc c 10)) s') as [a1 b1] eqn:Sp.
+  destruct (span_spec _ _ _ _ Sp) as [E1 [E2 E3]].
+  destruct (no_lfcr_cons _ _ N) as [_ [_ N']].
+  subst s'. destruct (no_lfcr_app_inv _ _ N') as [Na Nb].
+  destruct b1 as [|y b1].
+  - injection H as H1 H2. subst a b.
+    split; [exists a1; split; [reflexivity | exact Na] | split; [reflexivity | discriminate]].
+  - destruct b1 as [|z b1]; [|discriminate].
+    injection H as H1 H2. subst a b.
+    split; [exists a1; split; [reflexivity | exact Na] | split; [reflexivity | discriminate]].
+Qed.
+
+(* on a line without LF, a hash always starts a comment *)
+Lemma m_comment_none : forall c s, no_lfcr (c :: s) = true -> m_comment (c :: s) = None ->
+  eqc c 35 = false.
+Proof.
+  intros c s N H. destruct (eqc c 35) eqn:C; [|reflexivity]. exfalso.
+  unfold m_comment in H. rewrite C in H.
+  destruct (span (fun c => negb (eqc c 10)) s) as [a1 b1] eqn:Sp.
+  destruct (span_spec _ _ _ _ Sp) as [E1 [E2 E3]].
+  destruct b1 as [|y b1]; [discriminate|].
+  simpl in E3.
+  destruct (no_lfcr_cons _ _ N) as [_ [_ N']].
+  subst s. destruct (no_lfcr_app_inv _ _ N') as [_ Nb].
+  destruct (no_lfcr_cons _ _ Nb) as [Ny _].
+  rewrite Ny in E3. discriminate.
+Qed.
+
+Lemma m_char_split : forall k s a b, m_char k s = Some (a, b) -> s = a ++ b /\ a <> [].
+Proof.
+  intros k s a b H. unfold m_char in H. destruct s as [|c r]; [discriminate|].
+  destruct (eqc c k); [|discriminate]. injection H as H1 H2. subst a b.
+  split; [reflexivity | discriminate].
+Qed.
+
+(* ------------------------------------------------------------------ *)
+(* the alternation *)
+
+Lemma first_match_class : forall s k a b, no_lfcr s = true ->
+  first_match PENMAN_ALTS s = Some (k, a, b) ->
+  tok_class k a /\ s = a ++ b /\ a <> [].
+Proof.
+  intros s k a b N H. unfold first_match, PENMAN_ALTS, matcher_of in H.
+  destruct (m_comment s) as [[x y]|] eqn:MC.
+  { injection H as H1 H2 H3. subst k x y. exact (m_comment_class _ _ _ N MC). }
+  destruct (m_string s) as [[x y]|] eqn:MS.
+  { injection H as H1 H2 H3. subst k x y.
+    destruct (m_string_split _ _ _ MS) as [E [a' Ea]].
+    split; [|split; [exact E | rewrite Ea; discriminate]].
+    split; [exact (m_string_self _ _ _ MS)|].
+    rewrite E in N. exact (proj1 (no_lfcr_app_inv _ _ N)). }
+  destruct (m_char 40 s) as [[x y]|] eqn:M40.
+  { injection H as H1 H2 H3. subst k x y. split; [exact I | exact (m_char_split _ _ _ _ M40)]. }
+  destruct (m_char 41 s) as [[x y]|] eqn:M41.
+  { injection H as H1 H2 H3. subst k x y. split; [exact I | exact (m_char_split _ _ _ _ M41)]. }
+  destruct (m_char 47 s) as [[x y]|] eqn:M47.
+  { injection H as H1 H2 H3. subst k x y. split; [exact I | exact (m_char_split _ _ _ _ M47)]. }
+  destruct (m_role s) as [[x y]|] eqn:MR.
+  { injection H as H1 H2 H3. subst k x y.
+    unfold m_role in MR. destruct s as [|c r]; [discriminate|].
+    destruct (eqc c 58) eqn:C; [|discriminate]. apply eqc_true in C. subst c.
+    destruct (span is_name r) as [a1 b1] eqn:Sp.
+    destruct (span_spec _ _ _ _ Sp) as [E1 [E2 _]].
+    injection MR as R1 R2. subst a b r.
+    split; [exists a1; split; [reflexivity | exact E2] | split; [reflexivity | discriminate]]. }
+  destruct (m_symbol s) as [[x y]|] eqn:MY.
+  { injection H as H1 H2 H3. subst k x y.
+    unfold m_symbol in MY.
+    destruct (span is_name s) as [a1 b1] eqn:Sp.
+    destruct (span_spec _ _ _ _ Sp) as [E1 [E2 _]].
+    destruct a1 as [|c a1]; [discriminate|].
+    injection MY as R1 R2. subst a b s.
+    split; [|split; [reflexivity | discriminate]].
+    change (negb (eqc c 35) && forallb is_name (c :: a1) = true).
+    rewrite E2. rewrite (m_comment_none c (a1 ++ b1) N MC). reflexivity. }
+  destruct (m_align s) as [[x y]|] eqn:MA.
+  { injection H as H1 H2 H3. subst k x y.
+    destruct (m_align_spec _ _ _ MA) as [E [_ [a' Ea]]].
+    split; [exact (m_align_self _ _ _ MA) | split; [exact E | rewrite Ea; discriminate]]. }
+  destruct (m_unexp s) as [[x y]|] eqn:MU; [|discriminate].
+  injection H as H1 H2 H3. subst k x y.
+  unfold m_unexp in MU. destruct s as [|c r]; [discriminate|].
+  destruct (is_ws c); [discriminate|]. injection MU as R1 R2. subst a b.
+  split; [exact I | split; [reflexivity | discriminate]].
+Qed.
+
+(* ------------------------------------------------------------------ *)
+(* one line *)
+
+Lemma lex_line_fuel_class : forall f ln s off, no_lfcr s = true ->
+  Forall (fun t => tok_class (tty t) (ttext t)) (lex_line_fuel f PENMAN_ALTS ln s off).
+Proof.
+  induction f as [|f IH]; intros ln s off N; [exact (Forall_nil _)|].
+  destruct s as [|c s']; [rewrite lex_line_fuel_nil; exact (Forall_nil _)|].
+  destruct (first_match PENMAN_ALTS (c :: s')) as [[[t a] b]|] eqn:FM.
+  - rewrite (lex_line_fuel_tok _ _ _ _ _ _ _ _ _ FM).
+    destruct (first_match_class _ _ _ _ N FM) as [TC [E _]].
+    apply Forall_cons; [exact TC|]. apply IH.
+    rewrite E in N. exact (proj2 (no_lfcr_app_inv _ _ N)).
+  - rewrite (lex_line_fuel_skip _ _ _ _ _ _ FM). apply IH.
+    exact (proj2 (proj2 (no_lfcr_cons _ _ N))).
+Qed.
+
+Lemma lex_line_class : forall ln s, no_lfcr s = true ->
+  Forall (fun t => tok_class (tty t) (ttext t)) (lex_line PENMAN_ALTS ln s).
+Proof. intros ln s N. unfold lex_line. apply lex_line_fuel_class. exact N. Qed.
+
+(* ------------------------------------------------------------------ *)
+(* all lines *)
+
+Lemma lex_lines_from_class : forall lines ln, Forall (fun l => no_lfcr l = true) lines ->
+  Forall (fun t => tok_class (tty t) (ttext t)) (lex_lines_from PENMAN_ALTS ln lines).
+Proof.
+  induction lines as [|l ls IH]; intros ln H; [exact (Forall_nil _)|].
+  cbn [lex_lines_from]. apply Forall_app. split.
+  - apply lex_line_class. exact (Forall_inv H).
+  - apply IH. exact (Forall_inv_tail H).
+Qed.
+
+Lemma lex_lines_class : forall lines, Forall (fun l => no_lfcr l = true) lines ->
+  Forall (fun t => tok_class (tty t) (ttext t)) (lex_lines PENMAN_ALTS lines).
+Proof. intros lines H. unfold lex_lines. apply lex_lines_from_class. exact H. Qed.
+
+(* ------------------------------------------------------------------ *)
+(* the line splitter leaves neither LF nor CR *)
+
+Lemma split_lines_no_lfcr_len : forall n s, length s <= n ->
+  Forall (fun l => no_lfcr l = true) (split_lines s).
+Proof.
+  induction n as [|n IH]; intros s L.
+  - destruct s as [|c s']; [|simpl in L; lia].
+    apply Forall_cons; [reflexivity | exact (Forall_nil _)].
+  - destruct s as [|c s'].
+    { apply Forall_cons; [reflexivity | exact (Forall_nil _)]. }
+    simpl in L. cbn [split_lines].
+    destruct (eqc c 10) eqn:A.
+    { apply Forall_cons; [reflexivity | apply IH; lia]. }
+    destruct (eqc c 13) eqn:B.
+    { destruct s' as [|d s''].
+      - apply Forall_cons; [reflexivity|]. apply Forall_cons; [reflexivity | exact (Forall_nil _)].
+      - simpl in L. destruct (eqc d 10).
+        + apply Forall_cons; [reflexivity | apply IH; lia].
+        + apply Forall_cons; [reflexivity | apply IH; simpl; lia]. }
+    pose proof (IH s' ltac:(lia)) as Hs.
+    destruct (split_lines s') as [|p ps].
+    + apply Forall_cons; [|exact (Forall_nil _)].
+      change (negb (eqc c 10) && negb (eqc c 13) && true = true). rewrite A, B. reflexivity.
+    + apply Forall_cons; [|exact (Forall_inv_tail Hs)].
+      change (negb (eqc c 10) && negb (eqc c 13) && no_lfcr p = true).
+      rewrite A, B, (Forall_inv Hs). reflexivity.
+Qed.
+
+Lemma split_lines_no_lfcr : forall s, Forall (fun l => no_lfcr l = true) (split_lines s).
+Proof. intros s. apply (split_lines_no_lfcr_len (length s)). apply le_n. Qed.
+
+(* ------------------------------------------------------------------ *)
+(* lex(str) *)
+
+Theorem lex_str_class : forall s,
+  Forall (fun t => tok_class (tty t) (ttext t)) (lex_str PENMAN_ALTS s).
+Proof.
+  intros s. unfold lex_str. apply lex_lines_class. apply split_lines_no_lfcr.
+Qed.
+
+
